@@ -31,6 +31,15 @@ def cases(ctx, n):
         body = bytes([rnd.randrange(256)]) * rnd.choice([1000000, 1800001, 2700000])
         out.append(dict(i=n + 200000 + j, fam='big-expansion', data=pre + body + rnd.randbytes(rnd.randint(0, 50)), level=rnd.choice([1, 5, 9]),
                         ultra=True, w1=rnd.choice([1, 2, 4]), w2=rnd.choice([1, 2, 4]), env1={}, env2={}, feed=None))
+    for j in range(10 if ctx.quick() else 150):
+        # many equally expensive, distinct blocks both ways, long naps in the lock-free gaps of the scheduler, and (on the way
+        # back) several output chunks per block: every hand-over to the writer is raced
+        nb = rnd.choice([24, 40, 64])
+        data = rnd.randbytes(100000 * nb) if j % 2 else b''.join(b'%08d' % k + gen.textlike(rnd, 2000) * 50 for k in range(nb))
+        gp = lambda: {'LBZIP2_VERIF_SCHED': '%d:gaps:%d' % (rnd.randrange(1, 1 << 30), rnd.choice([1, 2, 5]))}
+        out.append(dict(i=n + 300000 + j, fam='lockstep-blocks', data=data, level=1, ultra=rnd.random() < 0.3, w1=rnd.choice([2, 3, 4, 8]),
+                        w2=rnd.choice([2, 3, 4, 8]), env1=gp(), env2=dict(gp(), LBZIP2_VERIF_OUT_GRANUL=str(rnd.choice([20000, 65536, 900000]))),
+                        feed=None))
     if not ctx.quick():
         files = gen.suite_corpus()
         for j, p in enumerate(files):
